@@ -343,7 +343,7 @@ def work(h, chunk):
                       "yaml": obs_text(obs_of_convert(resps[plan[1][2]])),
                       "toml": obs_text(obs_of_convert(resps[plan[3][2]]))}
         rows.append(("n", n_checked, skipped, D.count_nodes(obj["value"]),
-                     D.case_id(val), 1 if expr is not None else 0, sample, reinterpreted))
+                     D.case_id(val), 1 if expr is not None else 0, sample, reinterpreted, D.depth_of(obj["value"])))
     return rows
 
 
@@ -433,36 +433,52 @@ CORE = ["null", "true", "i_pos", "f_f15", "s_plain"]
 INVS = ["ExpectWellFormed", "ErrorIffUnrepresentable", "RoundTrip", "ConvAgrees", "ImportAgrees", "IncludeAgrees", "EmitC03"]
 
 
+def sim_configs(gd, n, traces, nodes, seed, pool, invs, prefix="sim"):
+    """TLC's simulator picks uniformly among successor states, so a large leaf pool
+    makes nesting improbable.  Each simulation configuration therefore works on a
+    small seeded sample of the leaf classes; the union over the configurations (and
+    seeds) covers the pool."""
+    import random
+    rng = random.Random("sim:%d" % seed)
+    runs = []
+    for k in range(n):
+        leaves = rng.sample(pool, 7)
+        name = "%s%d" % (prefix, k)
+        D.write_cfg(gd, name, 5, 4, nodes, 3, leaves[:3], leaves[3:], invs)
+        runs.append(("sim", name, traces, 60,
+                     "simulation: trees of <=%d nodes, depth <=5, <=4 children over leaf classes %s + <=3 of %s"
+                     % (nodes, leaves[:3], leaves[3:])))
+    return runs
+
+
 def configs(tier, gd):
     rare = [x for x in D.ALL_LEAVES if x not in CORE]
+    core2 = ["i_pos", "s_plain"]
+    shape_rare = ["null", "elist", "etuple", "s_multi", "f_inf", "con"]
     runs = []
     if tier == "quick":
         D.write_cfg(gd, "mc_leaf", 3, 3, 4, 1, CORE, rare, INVS)
         runs.append(("mc", "mc_leaf", None, None,
                      "exhaustive: trees of <=4 nodes, depth <=3, <=3 children, 5 core leaf classes + "
                      "<=1 of the 27 other leaf classes"))
-        core2 = ["i_pos", "s_plain"]
-        D.write_cfg(gd, "mc_shape", 3, 3, 5, 1, core2, ["null", "elist", "etuple", "s_multi", "f_inf", "con"], INVS)
+        D.write_cfg(gd, "mc_shape", 3, 3, 5, 1, core2, shape_rare, INVS)
         runs.append(("mc", "mc_shape", None, None,
                      "exhaustive: trees of <=5 nodes, depth <=3, <=3 children, 2 core leaf classes + "
                      "<=1 of {NULL, [], {}, multi-line string, inf, constraint}"))
-        D.write_cfg(gd, "sim", 5, 4, 12, 4, CORE, rare, INVS)
-        runs.append(("sim", "sim", 200, 60, "simulation: trees of <=12 nodes, depth <=5, <=4 children, <=4 rare leaves"))
+        runs += sim_configs(gd, 2, 120, 12, C.seed(), D.ALL_LEAVES, INVS)
     else:
         D.write_cfg(gd, "mc_leaf", 3, 3, 5, 1, CORE, rare, INVS)
         runs.append(("mc", "mc_leaf", None, None,
                      "exhaustive: trees of <=5 nodes, depth <=3, <=3 children, 5 core leaf classes + "
                      "<=1 of the 27 other leaf classes"))
-        D.write_cfg(gd, "mc_pair", 3, 3, 4, 2, ["i_pos", "s_plain"], [x for x in D.ALL_LEAVES if x not in ("i_pos", "s_plain")], INVS)
+        D.write_cfg(gd, "mc_pair", 3, 3, 4, 2, core2, [x for x in D.ALL_LEAVES if x not in core2], INVS)
         runs.append(("mc", "mc_pair", None, None,
                      "exhaustive: trees of <=4 nodes, depth <=3, 2 core leaf classes + <=2 of the 30 others"))
-        core2 = ["i_pos", "s_plain"]
-        D.write_cfg(gd, "mc_shape", 4, 3, 7, 1, core2, ["null", "elist", "etuple", "s_multi", "f_inf", "con"], INVS)
+        D.write_cfg(gd, "mc_shape", 4, 3, 6, 1, core2, shape_rare, INVS)
         runs.append(("mc", "mc_shape", None, None,
-                     "exhaustive: trees of <=7 nodes, depth <=4, <=3 children, 2 core leaf classes + "
+                     "exhaustive: trees of <=6 nodes, depth <=4, <=3 children, 2 core leaf classes + "
                      "<=1 of {NULL, [], {}, multi-line string, inf, constraint}"))
-        D.write_cfg(gd, "sim", 5, 4, 14, 5, CORE, rare, INVS)
-        runs.append(("sim", "sim", 12000, 80, "simulation: trees of <=14 nodes, depth <=5, <=4 children, <=5 rare leaves"))
+        runs += sim_configs(gd, 10, 1500, 14, C.seed(), D.ALL_LEAVES, INVS)
     return runs
 
 
@@ -551,6 +567,7 @@ def main(tier, replay=None):
     devcount = {}
     clusters = {}
     stale = {}
+    bydepth = {}
     reinterp = 0
     for x in rows:
         if x[0] == "bad":
@@ -565,7 +582,8 @@ def main(tier, replay=None):
             k = "%s (%s)" % (x[1], x[2])
             stale.setdefault(k, []).append(x[4])
         else:
-            _, n, sk, nodes, vid, has_expr, sample, reint = x
+            _, n, sk, nodes, vid, has_expr, sample, reint, dep = x
+            bydepth[str(dep)] = bydepth.get(str(dep), 0) + 1
             reinterp += reint
             evals += n
             skipped += sk
@@ -605,6 +623,7 @@ def main(tier, replay=None):
                 "one (value, format, route) observation judged; non-trivial = distinct concrete value with >= 2 nodes",
         "samples": samples,
         "value_trees": len(cases),
+        "value_trees_by_depth": dict(sorted(bydepth.items())),
         "value_trees_with_literal_form": with_expr,
         "program_route_skipped": skipped,
         "program_route_observed_value_substituted": reinterp,
